@@ -33,9 +33,9 @@ def from_model_path(path):
             cur = node["body"]
         elif op == "mark":
             cur.append({"t": "M"})
-        elif op == "throw":
+        elif op in ("throw", "thrownested"):
             e = KIND[a["e"]]
-            cur.append({"t": "X", "e": e})
+            cur.append({"t": "X" if op == "throw" else "Y", "e": e})       # Y: a message argument's Show throws and handles another kind
             while frames and not (frames[-1][1] == "body" and matches(frames[-1][0]["mask"], e)):
                 frames.pop()
             if not frames:
@@ -57,8 +57,8 @@ def tokens(prog):
     for n in prog:
         if n["t"] == "T":
             out += ["T", str(n["mask"]), "("] + tokens(n["body"]) + [")", "("] + tokens(n["handler"]) + [")"]
-        elif n["t"] == "X":
-            out += ["X", str(n["e"])]
+        elif n["t"] in ("X", "Y"):
+            out += [n["t"], str(n["e"])]
         elif n["t"] == "M":
             out += ["M"]
         elif n["t"] == "C":
@@ -84,7 +84,7 @@ def random_prog(rng, depth=0, maxdepth=6, budget=None, p_throw=0.22):
                         "body": random_prog(rng, depth + 1, maxdepth, budget, p_throw),
                         "handler": random_prog(rng, depth + 1, maxdepth, budget, p_throw * 0.6)})
         elif r < 0.40 + p_throw:
-            out.append({"t": "X", "e": rng.randint(1, 3)})
+            out.append({"t": "X" if rng.random() < 0.7 else "Y", "e": rng.randint(1, 3)})
         elif r < 0.75:
             out.append({"t": "M"})
         elif depth < maxdepth:
@@ -125,6 +125,8 @@ def _c_list(prog, ind, ctr):
             s += pad + 'ev_begin("mark"); ev_end();\n'
         elif n["t"] == "X":
             s += pad + 'ev_begin("throw"); ev_int("e", %d); ev_end(); ev_flush(); throw(%s, "kind %%i", $I(%d));\n' % (n["e"], KN[n["e"]], n["e"])
+        elif n["t"] == "Y":
+            s += pad + 'ev_begin("throw"); ev_int("e", %d); ev_end(); ev_flush(); throw(%s, "kind %%i %%$", $I(%d), $(ShowTry, %d));\n' % (n["e"], KN[n["e"]], n["e"], n["e"] % 3 + 1)
         elif n["t"] == "C":
             s += pad + 'ev_begin("call"); ev_end();\n' + pad + "{\n" + _c_list(n["body"], ind + 1, ctr) + pad + "}\n" + pad + 'ev_begin("ret"); ev_end();\n'
         elif n["t"] == "T":
